@@ -377,6 +377,17 @@ def sub_trajectories(case):
             for d, i in zip(data, idx):
                 if not _eq(d, r.P[:, i]):
                     raise Mismatch("trajectories(): a line does not show its input's %s coordinates in mode %s" % ("xyz"[i], mode), observed="line_data", mode=mode)
+        if case["markers"]:
+            # every trajectory gets a start and an end marker at its OWN first / last position
+            offs = [_offsets(sc, three_d) for sc in ax.collections]
+            pts = np.array([o[0] for o in offs if o.shape[0] == 1]).reshape(-1, len(idx))
+            if len(pts) != 2 * len(exp):
+                raise Mismatch("trajectories(): %d start/end markers for %d trajectories" % (len(pts), len(exp)), observed="artist", mode=mode)
+            for r in exp:
+                for nm, pose in (("start", r.P[0]), ("end", r.P[-1])):
+                    if not any(_eq(pt, pose[idx]) for pt in pts):
+                        raise Mismatch("trajectories(): no %s marker at %s, the %s position of one of the inputs (markers at %s) in mode %s" % (
+                            nm, pose[idx].tolist(), nm, pts.tolist(), mode), observed="marker", mode=mode)
     finally:
         plt.close("all")
     return "trajectories/" + kind
